@@ -92,16 +92,24 @@ def machine_structures(n_ops, M, flexible=False, canonical=False, require_all=Fa
 # --------------------------------------------------------------------------
 # instance construction (same code in symbolic and concrete mode)
 # --------------------------------------------------------------------------
-def build_instance(eng, shape, machines, dmin=0, prefix="d", name="JobShopInstance"):
+def build_instance(eng, shape, machines, dmin=0, prefix="d", name="JobShopInstance", share=None):
+    """share[k] = index of the duration variable of operation k (operations with the same index share one symbolic
+    duration: tie-rich wide instances with few paths); default: one variable per operation."""
     from job_shop_lib import JobShopInstance, Operation
 
     durs = []
     jobs = []
     k = 0
+    shared = {}
     for n in shape:
         job = []
         for _ in range(n):
-            d = eng.fresh_int(f"{prefix}{k}", dmin)
+            if share is None:
+                d = eng.fresh_int(f"{prefix}{k}", dmin)
+            else:
+                if share[k] not in shared:
+                    shared[share[k]] = eng.fresh_int(f"{prefix}s{share[k]}", dmin)
+                d = shared[share[k]]
             durs.append(d)
             ms = machines[k]
             job.append(Operation(ms[0] if len(ms) == 1 else list(ms), d))
